@@ -6,6 +6,10 @@ use std::cell::Cell;
 pub struct Counting;
 
 thread_local! {
+    /// trap: when a single request exceeds this, capture a backtrace (attribution of over-allocation)
+    static TRAP: Cell<usize> = const { Cell::new(usize::MAX) };
+    static IN_TRAP: Cell<bool> = const { Cell::new(false) };
+    static TRAP_SITE: std::cell::RefCell<Option<String>> = const { std::cell::RefCell::new(None) };
     static MAX_REQ: Cell<usize> = const { Cell::new(0) };
     static LIVE: Cell<usize> = const { Cell::new(0) };
     static PEAK: Cell<usize> = const { Cell::new(0) };
@@ -25,7 +29,38 @@ pub struct Stats {
     pub n: usize,
 }
 
+/// suspend accounting (used while the panic hook symbolises a backtrace: those allocations
+/// are the monitor's, not the library's)
+pub fn pause(on: bool) {
+    let _ = IN_TRAP.try_with(|t| t.set(on));
+}
+
+pub fn set_trap(threshold: usize) {
+    TRAP.with(|t| t.set(threshold));
+    TRAP_SITE.with(|s| *s.borrow_mut() = None);
+}
+
+pub fn take_trap_site() -> Option<String> {
+    TRAP.with(|t| t.set(usize::MAX));
+    TRAP_SITE.with(|s| s.borrow_mut().take())
+}
+
 fn note(size: usize) {
+    if IN_TRAP.try_with(|t| t.get()).unwrap_or(true) {
+        return;
+    }
+    if size > TRAP.try_with(|t| t.get()).unwrap_or(usize::MAX) {
+        let _ = IN_TRAP.try_with(|t| t.set(true));
+        let bt = std::backtrace::Backtrace::force_capture().to_string();
+        let site = crate::panics::first_repo_frame(&bt);
+        let _ = TRAP_SITE.try_with(|s| {
+            let mut s = s.borrow_mut();
+            if s.is_none() {
+                *s = Some(site);
+            }
+        });
+        let _ = IN_TRAP.try_with(|t| t.set(false));
+    }
     let _ = MAX_REQ.try_with(|m| {
         if size > m.get() {
             m.set(size)
@@ -80,6 +115,19 @@ unsafe impl GlobalAlloc for Counting {
     }
 }
 
+static mut CURRENT: [u8; 2048] = [0; 2048];
+static mut CURRENT_LEN: usize = 0;
+
+/// remember the input of the call in flight (dumped by `refuse`, so that an abort is attributable)
+pub fn set_current_input(b: &[u8]) {
+    let n = b.len().min(2048);
+    unsafe {
+        let dst = (&raw mut CURRENT) as *mut u8;
+        std::ptr::copy_nonoverlapping(b.as_ptr(), dst, n);
+        CURRENT_LEN = n;
+    }
+}
+
 fn refuse(size: usize) {
     // no allocation here: fixed buffer, raw write to fd 2
     let mut buf = [0u8; 64];
@@ -106,6 +154,20 @@ fn refuse(size: usize) {
     i += 1;
     unsafe {
         libc_write(2, buf.as_ptr(), i);
+        // hex dump of the input in flight
+        let mut hexbuf = [0u8; 4200];
+        let pre = b"AVMON-INPUT ";
+        hexbuf[..pre.len()].copy_from_slice(pre);
+        let mut k = pre.len();
+        let src = (&raw const CURRENT) as *const u8;
+        for j in 0..CURRENT_LEN {
+            let b = *src.add(j);
+            hexbuf[k] = b"0123456789abcdef"[(b >> 4) as usize];
+            hexbuf[k + 1] = b"0123456789abcdef"[(b & 15) as usize];
+            k += 2;
+        }
+        hexbuf[k] = b'\n';
+        libc_write(2, hexbuf.as_ptr(), k + 1);
     }
     let _ = MAX_REQ.try_with(|m| {
         if size > m.get() {
